@@ -213,14 +213,17 @@ class WrapperMixin(object):
         The characters which direct write_lines (a leading - + @ ^,
         a trailing +) are part of the user's code: the line is marked as
         literal.  A preprocessor line stays in column 1.
+        An entry may hold several lines.
         """
         out = []
         for line in lines:
             if isinstance(line, str):
-                line = line.expandtabs()
-                if line and line[0] != "#" and "\n" not in line:
-                    line = "@" + line
-            out.append(line)
+                for subline in line.expandtabs().split("\n"):
+                    if subline and subline[0] != "#":
+                        subline = "@" + subline
+                    out.append(subline)
+            else:
+                out.append(line)
         return out
 
     def _create_splicer(self, name, out, default=None, force=None):
